@@ -1060,6 +1060,17 @@ pub fn run(ctx: &Ctx) -> Report {
     rep.assume("bounded progress: closed reported within 6 s + 4 x min(keep-alive, 1 s) of the ground-truth end (remote application saw closed, or proxy reset); timer-lag canary");
     let workers = 2 + (ctx.seed as usize + ctx.shard) % 3;
     let rt = tokio::runtime::Builder::new_multi_thread().worker_threads(workers).enable_all().build().expect("runtime");
+    if let Some(path) = &ctx.replay {
+        let v: Value = serde_json::from_slice(&std::fs::read(path).expect("replay")).expect("json");
+        if v["replay"]["directed"] == "close-order" {
+            crate::c08::directed_close_order(&mut rep, "C07", v["replay"]["seed"].as_u64().unwrap_or(1));
+            return rep;
+        }
+    } else {
+        // "protocols before the manager": decided on the real ProtocolSet with a full protocol channel
+        // (scripted world, manual polling) — not observable between consumer tasks of real nodes
+        crate::c08::directed_close_order(&mut rep, "C07", ctx.rng("c07-order").u64());
+    }
     let scenarios: Vec<Scen> = if let Some(path) = &ctx.replay {
         let v: Value = serde_json::from_slice(&std::fs::read(path).expect("replay")).expect("json");
         let gs = v["replay"]["gen_seed"].as_u64().unwrap_or(1);
@@ -1123,5 +1134,6 @@ pub fn run(ctx: &Ctx) -> Report {
     rep.floor("connections_after_protocol_shutdown", 10);
     rep.floor("redials_checked", 40);
     rep.floor("survivor_use_checks", 10);
+    rep.floor("directed_close_order_protocols_first", 1);
     rep
 }
